@@ -5,6 +5,7 @@
 package simrt
 
 import (
+	"reflect"
 	"os"
 	"fmt"
 	"hash/fnv"
@@ -90,6 +91,12 @@ type Task struct {
 	spinVer  uint64
 	spinQuick   bool // parked after only SpinQuick iterations: re-run once before quiescence is declared
 	spinConfirm bool // running that confirmation slice (full SpinPark threshold applies)
+
+	// the map (of a shared struct) this task is about to read or write: set while it is parked at
+	// the yield right before the statement (see MapAccess)
+	pendMap   uintptr
+	pendWrite bool
+	pendSite  string
 
 	deadline time.Duration // virtual time at which a blocked I/O gives up (-1: none)
 	held map[*Mutex]string // mutexes currently owned -> lock site
@@ -180,6 +187,7 @@ type Sim struct {
 	Stats       Stats
 	yieldCount  map[string]int
 	RMWPreempts uint64
+	mapRaces    map[string]bool
 	OnSQL       func() // driver hook: called right before each database statement executes
 	PauseAt     uint64 // hand the baton back to the driver as soon as Step reaches this value (0 = off)
 }
@@ -483,6 +491,60 @@ func Access(site string, mode byte) {
 		return
 	}
 	Yield(site)
+}
+
+// MapAccess (R15) stands before a statement that reads (write=false) or writes / deletes from
+// (write=true) a map held in a field of a shared struct. It is a yield point; and it is a race
+// witness: if this task proceeds to its access while another task is parked right before a
+// conflicting access to the same map, nothing orders the two - in the real program they can
+// overlap, which the Go runtime answers with "fatal error: concurrent map read and map write".
+func MapAccess(site string, m any, write bool) {
+	s := cur
+	if s == nil || s.cur == nil {
+		return
+	}
+	t := s.cur
+	var ptr uintptr
+	if v := reflect.ValueOf(m); v.IsValid() && v.Kind() == reflect.Map {
+		ptr = v.Pointer()
+	}
+	if ptr == 0 {
+		Access(site, 'r')
+		return
+	}
+	t.pendMap, t.pendWrite, t.pendSite = ptr, write, site
+	Access(site+"#map", 'm')
+	t.pendMap = 0
+	for _, o := range s.tasks {
+		if o == t || o.pendMap != ptr || o.State == Done || o.killed || !(o.pendWrite || write) {
+			continue
+		}
+		a, b := site, o.pendSite
+		if b < a {
+			a, b = b, a
+		}
+		key := a + "|" + b
+		if s.mapRaces == nil {
+			s.mapRaces = map[string]bool{}
+		}
+		if s.mapRaces[key] {
+			continue
+		}
+		s.mapRaces[key] = true
+		rw := func(w bool) string {
+			if w {
+				return "write"
+			}
+			return "read"
+		}
+		// (no task names in the detail: it is part of the violation's signature)
+		x, y := rw(write)+" at "+site, rw(o.pendWrite)+" at "+o.pendSite
+		if y < x {
+			x, y = y, x
+		}
+		s.problem(Problem{Kind: "map-race", Task: t.Name, TaskKind: t.Kind, Site: key,
+			Detail: fmt.Sprintf("nothing orders the %s and the %s of the same map (concurrent map access is fatal in Go)", x, y)})
+	}
 }
 
 func (s *Sim) shouldPreempt(t *Task, site string, _ bool) bool {
